@@ -97,6 +97,15 @@ Definition send_ctcp_reply (target ctcp_type message : str) : res event :=
   | out => Ok (notice target out)
   end.
 
+(* Commands.SendCTCP: the request side, a PRIVMSG; same panic *)
+Definition message (target msg : str) : event := mk_event None PRIVMSG [target; msg].
+
+Definition send_ctcp (target ctcp_type msg : str) : res event :=
+  match encode_ctcp_raw ctcp_type msg with
+  | [] => Panic
+  | out => Ok (message target out)
+  end.
+
 (* ---- the default repliers -------------------------------------------- *)
 
 (* What the repliers read from the client and the runtime.  The theorems hold for
